@@ -2181,6 +2181,9 @@ func (e *Exec) doDagaz(mc *MConn, st Step, req uint32) {
 		want = TDebugResp
 	}
 	e.collect()
+	if st.Op == OpQuad && mc.joined() && e.Cfg.has("dagaz") {
+		mc.Sess.QuadSteps++
+	}
 	if !e.Cfg.has("dagaz") || want == -1 {
 		return
 	}
@@ -2190,8 +2193,29 @@ func (e *Exec) doDagaz(mc *MConn, st Step, req uint32) {
 	}
 	e.label("dagaz_query")
 	e.stepTags = "C04"
-	if _, ok := e.take(mc.Slot, isResp(want, req)); !ok {
+	rx, ok := e.take(mc.Slot, isResp(want, req))
+	if !ok {
 		e.fail("C04", "ground-plane query %d (%s) not answered with %s: %v", req, st.Op, typeName(want), e.delta[mc.Slot])
+	} else if mc.Sess.QuadSteps == 0 {
+		// isolation of the ground-plane index: the grid belongs to the session instance; as long
+		// as no member of this instance has sent a sample, every answer must be that of an empty
+		// grid - whatever was stored in other sessions, earlier instances of the id or earlier
+		// servers of this process
+		e.label("dagaz_query_in_sampleless_session")
+		switch m := rx.M.(type) {
+		case *dagazpb.DagazGetGroundPlaneResponse:
+			if g := m.GetGround(); g != nil && g.GetExtents() != nil && (g.GetExtents().GetX() != 0 || g.GetExtents().GetZ() != 0) {
+				e.fail("C03,C20", "ground-plane query %d in a session in which nobody ever sent a sample is answered with a plane: %v", req, g)
+			}
+		case *dagazpb.DagazGetRegionResponse:
+			if len(m.GetQuads()) != 0 {
+				e.fail("C03,C20", "region query %d in a session in which nobody ever sent a sample returns %d planes: %v", req, len(m.GetQuads()), m.GetQuads())
+			}
+		case *dagazpb.DagazGetDebugInfoResponse:
+			if m.GetGridPlaneCount() != 0 || m.GetGridMergeCount() != 0 {
+				e.fail("C03,C20", "debug info %d of a session in which nobody ever sent a sample counts %d planes, %d merges", req, m.GetGridPlaneCount(), m.GetGridMergeCount())
+			}
+		}
 	}
 	e.unexpectedEnd(mc, "C04,C08")
 }
